@@ -32,6 +32,16 @@ theorem Obj.closed_mono {n m : Nat} (h : n ≤ m) {o : Obj} (ho : o.closed n) : 
   | dict kvs => exact fun p hp => ⟨Val.closed_mono h (ho p hp).1, Val.closed_mono h (ho p hp).2⟩
   | host m n a => exact Val.closed_mono h ho
 
+theorem Val.closedB_iff (n : Nat) (v : Val) : v.closedB n = true ↔ v.closed n := by
+  cases v <;> simp [Val.closedB, Val.closed]
+
+theorem Obj.closedB_iff (n : Nat) (o : Obj) : o.closedB n = true ↔ o.closed n := by
+  cases o <;> simp [Obj.closedB, Obj.closed, List.all_eq_true, Val.closedB_iff]
+
+theorem hostResultOK_iff (h h' : Heap) (v : Val) :
+    hostResultOK h h' v = true ↔ h.length ≤ h'.length ∧ v.closed h'.length ∧ ∀ o ∈ h', o.closed h'.length := by
+  simp [hostResultOK, List.all_eq_true, Val.closedB_iff, Obj.closedB_iff, and_assoc]
+
 theorem Closed.init : Closed {} := ⟨by simp, by simp, by simp⟩
 
 /-- pushing a closed value -/
@@ -375,6 +385,17 @@ theorem stepOp_good (cfg : DecCfg) (ds : DecSt) (hc : Closed ds) (o : Op) : (ste
           split
           · refine alloc_good hc ?_ _ (fun x hx => by simp [hst, hx])
             exact hc.stack (.ref a) (by simp [hst])
+          · rename_i h' v hv
+            split
+            · rename_i hok
+              obtain ⟨hle, hvc, hhc⟩ := (hostResultOK_iff _ _ _).mp hok
+              refine ⟨?_, fun x hx => Val.closed_mono hle (hc.memo x hx), hhc⟩
+              intro x hx
+              simp only [List.mem_cons] at hx
+              rcases hx with rfl | hx
+              · exact hvc
+              · exact Val.closed_mono hle (hc.stack x (by simp [hst, hx]))
+            · trivial
           · trivial
           · trivial
           · trivial
@@ -384,21 +405,38 @@ theorem stepOp_good (cfg : DecCfg) (ds : DecSt) (hc : Closed ds) (o : Op) : (ste
 
 /-! ### only the host can panic -/
 
-theorem stepOp_panics (cfg : DecCfg) (ds : DecSt) (o : Op) :
-    (stepOp cfg ds o = .otherPanic → ∃ f m n xs, cfg.host = some f ∧ f m n xs = .otherPanic) ∧
-    (stepOp cfg ds o = .rtPanic → ∃ f m n xs, cfg.host = some f ∧ f m n xs = .runtimePanic) := by
+/-- the host unpickler, given a closed heap and the address of an argument tuple in it, panics with a non-error value
+or hands back a heap / value with a reference out of range -/
+def HostMisbehaves (cfg : DecCfg) : Prop :=
+  ∃ f h a m n xs, cfg.host = some f ∧ (∀ o ∈ h, o.closed h.length) ∧ h[a]? = some (.tuple xs) ∧
+    (f h a m n xs = .otherPanic ∨ ∃ h' v, f h a m n xs = .result h' v ∧ hostResultOK h h' v = false)
+
+theorem stepOp_panics (cfg : DecCfg) (ds : DecSt) (hc : Closed ds) (o : Op) :
+    (stepOp cfg ds o = .otherPanic → HostMisbehaves cfg) ∧
+    (stepOp cfg ds o = .rtPanic → ∃ f h a m n xs, cfg.host = some f ∧ f h a m n xs = .runtimePanic) := by
   cases o
   case newobj =>
     simp only [stepOp]
     constructor <;> intro h
     all_goals
       split at h <;> try cases h
+      rename_i a gid m n rest hst
       split at h <;> try cases h
+      rename_i xs hxs
       split at h <;> try cases h
       rename_i f hf
       split at h <;> try cases h
-      rename_i hv
-      exact ⟨f, _, _, _, hf, hv⟩
+    · rename_i h' v hv
+      split at h
+      · cases h
+      · rename_i hbad
+        exact ⟨f, ds.heap, a, m, n, xs, hf, hc.heap, hxs, Or.inr ⟨h', v, hv, by simpa using hbad⟩⟩
+    · rename_i hv
+      exact ⟨f, ds.heap, a, m, n, xs, hf, hc.heap, hxs, Or.inl hv⟩
+    · rename_i h' v hv
+      split at h <;> cases h
+    · rename_i hv
+      exact ⟨f, _, _, _, _, _, hf, hv⟩
   all_goals
     simp only [stepOp, push, alloc]
     constructor <;> intro h <;> (repeat' (split at h)) <;> cases h
@@ -408,8 +446,8 @@ theorem stepOp_panics (cfg : DecCfg) (ds : DecSt) (o : Op) :
 def Raw.Safe (cfg : DecCfg) : Raw → Prop
   | .value v h => v.closed h.length ∧ ∀ o ∈ h, o.closed h.length
   | .failure _ => True
-  | .rtPanic => ∃ f m n xs, cfg.host = some f ∧ f m n xs = .runtimePanic
-  | .otherPanic => ∃ f m n xs, cfg.host = some f ∧ f m n xs = .otherPanic
+  | .rtPanic => ∃ f h a m n xs, cfg.host = some f ∧ f h a m n xs = .runtimePanic
+  | .otherPanic => HostMisbehaves cfg
   | .outOfFuel => False
 
 /-- The decoder loop, started with more fuel than input bytes, never runs out of fuel (each iteration consumes a
@@ -428,7 +466,7 @@ theorem decodeLoop_safe (cfg : DecCfg) : ∀ (fuel : Nat) (ds : DecSt) (bs : Byt
     · rename_i o rest hp
       have hl := parseOp_length _ _ _ hp
       have hg := stepOp_good cfg ds hc o
-      have hp := stepOp_panics cfg ds o
+      have hp := stepOp_panics cfg ds hc o
       split
       · rename_i ds' hs
         rw [hs] at hg
